@@ -5,7 +5,7 @@ from engines.purefn import run_purefn
 MODULES = ["BumpProof.Props.C11"]
 
 def run(ctx):
-    n = 15000 if ctx.quick() else 600000
+    n = 60000 if ctx.quick() else 600000
     ctx.extra["rule"] = ("boundary-biased random BumpProps (addresses next to 0x10, 2^31, 2^32, 2^47, 2^63, 2^64-16; sizes next to powers of two "
                          "and isize::MAX; alignments 2^0..2^62; all 5 minimum alignments; all hint combinations; dummy ranges) plus a sub-sampled "
                          "exhaustive window start,end in [16,96), size<=24, align<=64; distinct_nontrivial counts distinct queries whose result is a "
